@@ -222,6 +222,7 @@ def r14_5(run):
         run.ob("docstring|%s|default" % name, ok, "documented default of %s (%s) equals the code default (%r)" % (name, val, dv), w)
     # every option that is read has a default
     read = {}
+    fallbacks = []
     for fi in ix.all_functions():
         if fi.module.startswith("pandapipes.converter") or fi.module.startswith("pandapipes.plotting"):
             continue
@@ -237,7 +238,16 @@ def r14_5(run):
             if isinstance(n, ast.Subscript) and U(n.value) in ("options", 'net["_options"]', "net['_options']") and const_str(n.slice) \
                     and isinstance(n.ctx, ast.Load):
                 read.setdefault(const_str(n.slice), fi)
+        # options.get("name", fallback): the same read with a fallback for nets whose options predate the option
+        for c in calls(fi.node):
+            if isinstance(c.func, ast.Attribute) and c.func.attr == "get" and c.args and const_str(c.args[0]) \
+                    and U(c.func.value) in ("options", 'net["_options"]', "net['_options']", "net._options", "opts"):
+                read.setdefault(const_str(c.args[0]), fi)
+                if len(c.args) == 2:
+                    fallbacks.append((const_str(c.args[0]), c.args[1], fi, c))
     exempt = {"fluid": "added by init_options", "simulation_time_step": "transient runs only (set by the transient time-series loop)"}
+    # (the fallback literal itself is not compared: the merged options always hold every default, so a fallback is never in force
+    #  -- calc_lambda's `options.get("max_iter_colebrook", 100)` next to the default 10 is dead, not a second default)
     for k, fi in sorted(read.items()):
         ok = k in defaults or k in exempt
         run.ob("option-read|%s" % k, ok, "option %r read in %s has a default%s" % (k, fi.short, (" (%s)" % exempt[k]) if k in exempt else ""),
